@@ -105,9 +105,15 @@ SHAPE_EXTRA = {  # what the emitted shape does not carry (class tables), same as
 }
 
 
-def conc_value(path, v):
+def conc_value(path, v, strpaths=None):
     if v == "null":
         return None
+    if path == ["subcommand"]:
+        return v
+    if strpaths is not None:
+        if v in ("Sub", "Other", "Base"):
+            return "verif_c06mod." + v
+        return "s" if tuple(x for x in path if x != "#") in strpaths or tuple(path) in strpaths else 1
     if v in ("Sub", "Other", "Base"):
         return "verif_c06mod." + v
     if v in ("fit", "test"):
@@ -116,7 +122,7 @@ def conc_value(path, v):
     return "s" if leaf in STR_LEAVES else 1
 
 
-def nested(cfg):
+def nested(cfg, strpaths=None):
     """abstract entries -> the nested mapping a user writes ('#' = first list item)"""
     root: dict = {}
     for e in sorted(cfg, key=lambda e: (len(e["p"]), e["p"])):
@@ -133,7 +139,7 @@ def nested(cfg):
                 if not isinstance(cur.get(comp), dict):
                     cur[comp] = {}
                 cur = cur[comp]
-        cur[path[-1]] = conc_value(path, e["v"])
+        cur[path[-1]] = conc_value(path, e["v"], strpaths)
     return root
 
 
@@ -309,6 +315,234 @@ def random_case(rnd, shape_paths):
     return {"cfg": cfg, "muts": muts}
 
 
+# ---------------------------------------------------------------- random SHAPES (beyond the one rich shape of MC_Validate)
+NAMES = ["alpha", "beta", "gamma", "delta", "eps", "zeta", "eta", "theta", "iota", "kappa"]
+
+
+def random_shape(rnd):
+    """-> tree: {"children": {name: node}, "subs": [[name, {"children": ...}], ...] | None}
+    node: {"t": "leaf", "req": bool, "str": bool} | {"t": "group"|"dc", "children": {...}} | {"t": "cls", "req": bool} | {"t": "listdc", "children": {...}} | {"t": "dict"}"""
+    def kids(depth, allow):
+        out = {}
+        for n in rnd.sample(NAMES, rnd.randint(1, 3)):
+            r = rnd.random()
+            if depth < 2 and r < 0.25 and "group" in allow:
+                out[n] = {"t": "group", "children": kids(depth + 1, ("group", "dc"))}
+            elif depth < 2 and r < 0.45 and "dc" in allow:
+                out[n] = {"t": "dc", "children": kids(depth + 1, ("dc",))}
+            elif r < 0.55 and "cls" in allow:
+                out[n] = {"t": "cls", "req": rnd.random() < 0.5}
+            elif r < 0.65 and "listdc" in allow:
+                out[n] = {"t": "listdc", "children": kids(2, ())}
+            elif r < 0.72 and "dict" in allow:
+                out[n] = {"t": "dict"}
+            else:
+                out[n] = {"t": "leaf", "req": rnd.random() < 0.4, "str": rnd.random() < 0.3}
+        return out
+
+    tree = {"children": kids(0, ("group", "dc", "cls", "listdc", "dict")), "subs": None}
+    if rnd.random() < 0.5:
+        free = [n for n in NAMES if n not in tree["children"]]
+        tree["subs"] = [[n, {"children": kids(1, ("group",))}] for n in rnd.sample(free, rnd.randint(1, min(3, len(free))))]
+    return tree
+
+
+def shape_nodes_of(tree):
+    nodes = []
+
+    def walk(path, node):
+        t = node["t"]
+        base = {"path": path, "req": False, "of": [], "req_of": [], "ord": 0}
+        if t == "leaf":
+            nodes.append({**base, "kind": "leaf", "req": node["req"]})
+        elif t in ("group", "dc"):
+            nodes.append({**base, "kind": "ns"})
+            for n, c in node["children"].items():
+                walk(path + [n], c)
+        elif t == "cls":
+            nodes.append({**base, "kind": "cls", "req": node["req"], **SHAPE_EXTRA["model"]})
+        elif t == "listdc":
+            nodes.append({**base, "kind": "list"})
+            nodes.append({**base, "path": path + ["#"], "kind": "ns"})
+            for n, c in node["children"].items():
+                walk(path + ["#", n], c)
+        elif t == "dict":
+            nodes.append({**base, "kind": "dict"})
+
+    for n, c in tree["children"].items():
+        walk([n], c)
+    if tree["subs"]:
+        nodes.append({"path": ["subcommand"], "kind": "leaf", "req": True, "of": [], "req_of": [], "ord": 0})
+        for k, (n, sec) in enumerate(tree["subs"]):
+            nodes.append({"path": [n], "kind": "sec", "req": False, "of": [], "req_of": [], "ord": k + 1})
+            for cn, c in sec["children"].items():
+                walk([n, cn], c)
+    return nodes
+
+
+def build_random(tree):
+    import dataclasses
+    from typing import Dict, List
+
+    from jsonargparse import ActionConfigFile, ArgumentParser
+
+    m = make_module()
+
+    def dc_of(children, name):
+        req, opt = [], []
+        for n, c in children.items():
+            if c["t"] == "dc":
+                req.append((n, dc_of(c["children"], name + "_" + n)))
+            elif c["req"]:
+                req.append((n, str if c["str"] else int))
+            else:
+                opt.append((n, str if c["str"] else int, dataclasses.field(default="s" if c["str"] else 1)))
+        cls = dataclasses.make_dataclass("DC_" + name, req + opt)
+        cls.__module__ = "verif_c06mod"
+        setattr(m, cls.__name__, cls)
+        return cls
+
+    def add(parser, prefix, children):
+        for n, c in children.items():
+            key = f"{prefix}.{n}" if prefix else n
+            t = c["t"]
+            if t == "leaf":
+                kw = {"required": True} if c["req"] else {"default": "s" if c["str"] else 1}
+                parser.add_argument("--" + key, type=str if c["str"] else int, **kw)
+            elif t == "group":
+                add(parser, key, c["children"])
+            elif t == "dc":
+                parser.add_argument("--" + key, type=dc_of(c["children"], key.replace(".", "_")))
+            elif t == "cls":
+                kw = {"required": True} if c["req"] else {"default": None}
+                from typing import Optional
+
+                parser.add_argument("--" + key, type=m.Base if c["req"] else Optional[m.Base], **kw)
+            elif t == "listdc":
+                parser.add_argument("--" + key, type=List[dc_of(c["children"], key.replace(".", "_"))], default=[])
+            elif t == "dict":
+                parser.add_argument("--" + key, type=Dict[str, int], default={})
+
+    p = ArgumentParser(exit_on_error=False, env_prefix="APP")
+    p.add_argument("--cfg", action=ActionConfigFile)
+    add(p, "", tree["children"])
+    if tree["subs"]:
+        sc = p.add_subcommands(required=True)
+        for n, sec in tree["subs"]:
+            sp = ArgumentParser(exit_on_error=False)
+            add(sp, "", sec["children"])
+            sc.add_subcommand(n, sp)
+    return p
+
+
+def random_config(rnd, tree, nodes):
+    """a valid configuration of the shape (abstract entries) and 0-2 mutations of it"""
+    by = {tuple(n["path"]): n for n in nodes}
+    cfg = []
+    chosen = None
+    if tree["subs"]:
+        chosen = rnd.choice(tree["subs"])[0]
+        if rnd.random() < 0.8:
+            cfg.append({"p": ["subcommand"], "v": chosen})
+    items = set()
+    for path, n in by.items():
+        if n["kind"] == "list" and rnd.random() < 0.6:
+            items.add(path)
+    for path, n in by.items():
+        if path and path[0] in [s[0] for s in (tree["subs"] or [])] and path[0] != chosen:
+            continue
+        if any(path[: i + 1] in by and by[path[: i + 1]]["kind"] == "list" and path[: i + 1] not in items for i in range(len(path))):
+            continue
+        if n["kind"] == "leaf" and path != ("subcommand",):
+            if n["req"] or rnd.random() < 0.4:
+                cfg.append({"p": list(path), "v": "1"})
+        elif n["kind"] == "cls" and (n["req"] or rnd.random() < 0.5):
+            cls = rnd.choice(["Sub", "Other"])
+            cfg.append({"p": list(path) + ["class_path"], "v": cls})
+            cfg.append({"p": list(path) + ["init_args", "arg"], "v": "1"})
+        elif n["kind"] == "dict" and rnd.random() < 0.5:
+            cfg.append({"p": list(path) + [rnd.choice(["k1", "zzq", "any"])], "v": "1"})
+    if tree["subs"] and not any(e["p"][0] == chosen for e in cfg) and not any(e["p"] == ["subcommand"] for e in cfg):
+        cfg.append({"p": ["subcommand"], "v": chosen})
+    # an item that exists needs an entry
+    for it in items:
+        if not any(tuple(e["p"][: len(it) + 1]) == it + ("#",) for e in cfg):
+            leaves = [p for p in by if p[: len(it) + 1] == it + ("#",) and by[p]["kind"] == "leaf"]
+            if leaves:
+                cfg.append({"p": list(leaves[0]), "v": "1"})
+    muts = []
+    for _ in range(rnd.choice([0, 1, 1, 2])):
+        if rnd.random() < 0.6:
+            containers = [()] + [p for p, n in by.items() if n["kind"] in ("ns", "sec") and (any(tuple(e["p"][: len(p)]) == p for e in cfg) or n["kind"] == "sec")
+                                 and "#" not in p[:-1] or (n["kind"] == "ns" and p[-1:] == ("#",) and p[:-1] in items)]
+            containers += [p + ("init_args",) for p, n in by.items() if n["kind"] == "cls" and any(tuple(e["p"][: len(p)]) == p for e in cfg)]
+            pos = rnd.choice(containers)
+            sibs = [q[-1] for q in by if q[: len(pos)] == pos and len(q) == len(pos) + 1]
+            name = rnd.choice([["zzq"], ["zzq+"], ["zzq", "deep"], ["Zzq"], [rnd.choice(sibs) + "x"] if sibs else ["zzq"]])
+            cfg = [e for e in cfg if e["p"] != list(pos) + name] + [{"p": list(pos) + name, "v": "1"}]
+            muts.append(["foreign", list(pos), name])
+        else:
+            req = [e["p"] for e in cfg if tuple(e["p"]) in by and by[tuple(e["p"])]["kind"] == "leaf" and by[tuple(e["p"])]["req"] and e["p"] != ["subcommand"]]
+            if not req:
+                continue
+            r = rnd.choice(req)
+            kind = rnd.choice(["remove", "null"])
+            cfg = [e for e in cfg if e["p"] != r]
+            if kind == "null":
+                cfg.append({"p": r, "v": "null"})
+            muts.append([kind, r])
+    return cfg, muts
+
+
+def run_random_shape(case):
+    from jsonargparse import ArgumentError
+
+    warnings.simplefilter("ignore")
+    make_module()
+    strpaths = set()
+
+    def collect(path, children):
+        for n, c in children.items():
+            if c["t"] == "leaf" and c["str"]:
+                strpaths.add(tuple(path + [n]))
+            elif "children" in c:
+                collect(path + [n], c["children"])
+
+    collect([], case["tree"]["children"])
+    for n, sec in case["tree"]["subs"] or []:
+        collect([n], sec["children"])
+    obj = nested(case["cfg"], strpaths)
+    tmp = tempfile.mkdtemp(prefix="verif-val2-")
+    outs = []
+    try:
+        for ch in ("object_nested", "string", "cfgfile"):
+            p = build_random(case["tree"])
+            call = None
+            try:
+                if ch == "object_nested":
+                    call = copy.deepcopy(obj)
+                    p.parse_object(copy.deepcopy(obj))
+                elif ch == "string":
+                    call = json.dumps(obj)
+                    p.parse_string(call)
+                else:
+                    f = os.path.join(tmp, "c.json")
+                    with open(f, "w") as fh:
+                        json.dump(obj, fh)
+                    call = ["--cfg", f]
+                    p.parse_args(call)
+                outs.append({"ch": ch, "out": "ok", "msg": "", "call": repr(call)[:400]})
+            except ArgumentError as ex:
+                outs.append({"ch": ch, "out": "err", "msg": str(ex)[:600], "call": repr(call)[:400]})
+            except SystemExit as ex:
+                outs.append({"ch": ch, "out": "err", "msg": f"exit {ex.code}", "call": repr(call)[:400], "escaped": "SystemExit"})
+            except Exception as ex:
+                outs.append({"ch": ch, "out": "err", "msg": f"{type(ex).__name__}: {ex}"[:300], "call": repr(call)[:400], "escaped": type(ex).__name__})
+        return outs
+    finally:
+        shutil.rmtree(tmp, ignore_errors=True)
+
+
 def foreign_free(cfg, shape_paths):
     """can the environment express this configuration? (no key outside the declared leaves / dict items / class spec)"""
     for e in cfg:
@@ -394,32 +628,53 @@ def main(argv):
         rc["abbrev"] = any(m[0] == "foreign" and abbrev(m[2][:1]) for m in rc["muts"])
         rcases.append(rc)
     rres = pipeline.run_many(run_case, rcases, chunksize=4)
+    # random SHAPES: every case brings its own parser shape
+    nsh = 250 if tier == "quick" else 3000
+    shapes2, scases = [], []
+    for k in range(nsh):
+        tree = random_shape(rnd)
+        nodes = shape_nodes_of(tree)
+        shapes2.append(nodes)
+        for _ in range(4):
+            cfg, muts = random_config(rnd, tree, nodes)
+            scases.append({"tree": tree, "shape": len(shapes2) + 1, "cfg": cfg, "muts": muts})
+    sres = pipeline.run_many(run_random_shape, scases, chunksize=8)
     tmp = common.scratch("c06")
     try:
         f = tmp / "cases.json"
-        f.write_text(json.dumps({"shapes": [shape_nodes], "cases": [{"shape": 1, "cfg": c["cfg"], "outs": [{"ch": o["ch"], "out": o["out"]} for o in outs]} for c, outs in zip(rcases, rres)]}))
+        f.write_text(json.dumps({"shapes": [shape_nodes] + shapes2,
+                                 "cases": [{"shape": 1, "cfg": c["cfg"], "outs": [{"ch": o["ch"], "out": o["out"]} for o in outs]} for c, outs in zip(rcases, rres)]
+                                 + [{"shape": c["shape"], "cfg": c["cfg"], "outs": [{"ch": o["ch"], "out": o["out"]} for o in outs]} for c, outs in zip(scases, sres)]}))
         tr = tlc.run("Trace_Validate", "Trace_Validate", workers=16, env={"TRACE_FILE": str(f)}, timeout=2400, heap="8g")
         rep.add_tlc("Trace_Validate", tr)
-        if tr.errors or tr.distinct != len(rcases):
-            machinery_failure(PID, f"trace validation failed (distinct={tr.distinct}, expected {len(rcases)}):\n" + tr.stdout[-3000:])
+        if tr.errors or tr.distinct != len(rcases) + len(scases):
+            machinery_failure(PID, f"trace validation failed (distinct={tr.distinct}, expected {len(rcases) + len(scases)}):\n" + tr.stdout[-3000:])
+        allc, allr = rcases + scases, rres + sres
         for p in tr.printed:
             if isinstance(p, list) and p and p[0] == "R":
-                c, outs = rcases[p[1] - 1], rres[p[1] - 1]
+                c, outs = allc[p[1] - 1], allr[p[1] - 1]
                 o = outs[p[2] - 1]
                 case = {"cfg": c["cfg"], "mutations": c["muts"], "channel": o["ch"], "call": o["call"], "observed": o["out"], "message": o["msg"], "clause": p[3]}
+                if "tree" in c:
+                    case["shape_tree"] = c["tree"]
                 if p[3] == "ref-dev-as-alg":
                     rep.violation("non-chosen-section:foreign-key-dropped", DEV, case)
                 elif p[3] == "ref":
-                    rep.violation(f"random:{o['ch']}:{'silently-accepted' if o['out'] == 'ok' else 'rejected-valid'}:{_mutkey(c['muts'])}",
+                    rep.violation(f"random{'-shape' if 'tree' in c else ''}:{o['ch']}:{'silently-accepted' if o['out'] == 'ok' else 'rejected-valid'}:{_mutkey(c['muts']) if 'tree' not in c else _mutkinds(c)}",
                                   ("a mutated configuration was accepted" if o["out"] == "ok" else "a configuration that the reference accepts was rejected") + f" ({o['msg'][:120]})", case)
                 else:
                     rep.add_drift("random: real = Ref but not Alg", case)
-        for c, outs in zip(rcases, rres):
+        for c, outs in zip(rcases + scases, rres + sres):
             for o in outs:
                 if o.get("escaped"):
                     rep.violation(f"escaped:{o['escaped']}:{o['ch']}", f"{o['escaped']} escaped instead of ArgumentError", {"cfg": c["cfg"], "channel": o["ch"], "call": o["call"], "message": o["msg"]})
-        rep.traces += len(rcases)
-        rep.extra["random_parses"] = sum(len(o) for o in rres)
+        rep.traces += len(rcases) + len(scases)
+        rep.extra["random_parses"] = sum(len(o) for o in rres) + sum(len(o) for o in sres)
+        rep.extra["random_shapes"] = len(shapes2)
+        for c in scases:
+            if c["muts"]:
+                rep.note_nontrivial(json.dumps([c["tree"], c["cfg"]], sort_keys=True))
+        rep.sample({"random_shape": scases[0]["tree"], "cfg": scases[0]["cfg"], "mutations": scases[0]["muts"], "outs": [{"ch": o["ch"], "out": o["out"]} for o in sres[0]]})
         for c in rcases:
             if c["muts"]:
                 rep.note_nontrivial(json.dumps(c["cfg"], sort_keys=True))
@@ -431,8 +686,20 @@ def main(argv):
                 "(a foreign key somewhere or a required key removed / nulled)")
     rep.exhaustive = False
     rep.explanation = (f"all {len(cases)} (configuration, mutation) pairs of MC_Validate x channels ({nparse} parses) compared with TLC's outcome, rejections checked to name the key; "
-                       f"{len(rcases)} random configurations with 0-2 mutations ({rep.extra['random_parses']} parses) validated by TLC against Trace_Validate")
+                       f"{len(rcases)} random configurations of that shape and {len(scases)} configurations over {len(shapes2)} random parser shapes, each with 0-2 mutations "
+                       f"({rep.extra['random_parses']} parses), validated by TLC against Trace_Validate")
     return rep.finish()
+
+
+def _mutkinds(c):
+    """for random shapes: the mutation kinds and the node kind at the position (names are random)"""
+    out = []
+    nodes = {tuple(n["path"]): n["kind"] for n in shape_nodes_of(c["tree"])}
+    for m in c["muts"]:
+        pos = tuple(m[1]) if m[0] == "foreign" else tuple(m[1][:-1])
+        kind = "root" if not pos else nodes.get(pos, "init_args" if pos and pos[-1] == "init_args" else "?")
+        out.append(f"{m[0]}@{kind}" + (":" + ("plus" if m[2][-1].endswith("+") else "dotted" if len(m[2]) > 1 else "name") if m[0] == "foreign" else ""))
+    return "+".join(sorted(out)) or "none"
 
 
 def _mutkey(muts):
